@@ -268,7 +268,12 @@ impl Dictionary {
         }
         self.data.connector.map_connection_ids(&mapper);
         self.data.unk_handler.map_connection_ids(&mapper);
-        self.data.mapper = Some(mapper);
+        // A user lexicon loaded later is given in the original ids, so the stored mapper must
+        // translate through every mapping applied so far.
+        self.data.mapper = Some(match self.data.mapper.take() {
+            Some(prev) => prev.compose(&mapper),
+            None => mapper,
+        });
         Ok(self)
     }
 }
